@@ -1,7 +1,7 @@
 (* Property C11: vring state follows the protocol; kicks are dispatched iff
    started and enabled.  Statements only (model-level parts; the life-cycle
    over whole histories is decided by family dmn against Spec.DaemonSpec). *)
-From VV Require Import Base.Bits Base.Rt Base.Val Model.Daemon Spec.DaemonSpec Proofs.DaemonProofs.
+From VV Require Import Base.Bits Base.Rt Base.Val Model.Daemon Spec.DaemonSpec Proofs.DaemonProofs Proofs.RingInvProofs.
 Open Scope N_scope.
 
 (* after the registration update, the ring's CURRENT kick descriptor is in its owner's epoll set
@@ -25,3 +25,18 @@ Print Assumptions C11_get_vring_base.
 Theorem C11_update_keeps_rings : forall s r q, d_rings (update_reg s r q) = d_rings s.
 Proof. exact update_reg_rings. Qed.
 Print Assumptions C11_update_keeps_rings.
+
+(* the registration invariant is INDUCTIVE: after ANY history of SET_VRING_KICK / SET_VRING_CALL / GET_VRING_BASE /
+   SET_VRING_ENABLE / SET_FEATURES / RESET_DEVICE, on any number of rings and workers, every ring's current kick
+   descriptor is in its owner's epoll set exactly when the ring is started and enabled (and the descriptors of different
+   rings are distinct instances) *)
+Theorem C11_registration_invariant_all_histories : forall nq maxq f pf masks ops,
+  RInv (ring_run (dinit nq maxq f pf masks) ops).
+Proof. intros. apply ring_run_inv. apply rinv_init. Qed.
+Print Assumptions C11_registration_invariant_all_histories.
+
+Theorem C11_invariant_means : forall s, RInv s ->
+  forall q r t idx k, get_ring s q = Some r -> owner_of (d_masks s) q 0 = Some (t, idx) -> r_kick r = Some k ->
+                      registered s t k = r_ready r && r_enabled r.
+Proof. intros s [H _] q r t idx k. apply H. Qed.
+Print Assumptions C11_invariant_means.
